@@ -83,6 +83,8 @@ def fit_minuit_v1(fcn, bounds_dict={}, hesse=True, minos=False, **kwargs):
         m.minos()  # (var="")
         print("MINOS Time", time.time() - now)
     ndf = len(m.list_of_vary_param())
+    # HESSE / MINOS leave the model at their last evaluation point
+    fcn.vm.set_all(dict(m.values))
     ret = FitResult(
         dict(m.values), fcn, m.fval, ndf=ndf, success=m.migrad_ok()
     )
@@ -140,6 +142,8 @@ def fit_minuit_v2(fcn, bounds_dict={}, hesse=True, minos=False, **kwargs):
         m.minos()  # (var="")
         print("MINOS Time", time.time() - now)
     ndf = len(var_names)
+    # HESSE / MINOS leave the model at their last evaluation point
+    fcn.vm.set_all(dict(zip(var_names, m.values)))
     ret = FitResult(
         dict(zip(var_names, m.values)), fcn, m.fval, ndf=ndf, success=m.valid
     )
@@ -395,7 +399,7 @@ def fit_scipy(
         fcn.vm.set_bound(bounds_dict)
         return fit_newton_cg(fcn, method[:-2], True)
     elif method in ["iminuit"]:
-        m = fit_minuit(fcn)
+        m = fit_minuit(fcn, bounds_dict=bounds_dict)
         return m
     elif method in ["root"]:
         m = fit_root_fitter(fcn)
